@@ -213,6 +213,8 @@ IdealOp(r, self, o, g, obs, operOf, topOk, root) ==
                    ELSE [r EXCEPT !.st = s2]
       [] o.op = "sstore" ->
            [r EXCEPT !.st.storage[self] = [@ EXCEPT !["s" \o ToString(o.id)] = 7]]
+      \* LOG1 with the op id as topic: the logs of the transaction, in emission order
+      [] o.op = "log" -> [r EXCEPT !.st.logs = Append(@, o.id)]
       [] o.op = "selfdestruct" -> IdealDestroy(r, self, Named(o.to, self))
       [] OTHER -> r
 
@@ -412,7 +414,7 @@ RECURSIVE MBody(_, _, _, _, _, _, _)
 RolledBack(m0, r) ==
     LET kept == [a \in DOMAIN m0.cache |-> IF m0.cache[a] # "-" \/ "stale_overwrite" \notin Defects THEN m0.cache[a] ELSE r.ms.orig[a]] IN
     IF "no_cosmos_revert" \in Defects /\ r.ms.nflush # m0.nflush
-    THEN [m0 EXCEPT !.cache = kept, !.orig = r.ms.orig, !.s = [r.ms.s EXCEPT !.storage =
+    THEN [m0 EXCEPT !.cache = kept, !.orig = r.ms.orig, !.s = [r.ms.s EXCEPT !.logs = m0.s.logs, !.storage =
                  [cc \in DOMAIN @ |-> IF cc \in m0.dirty THEN m0.s.storage[cc]
                                        ELSE [k \in DOMAIN @[cc] |-> IF r.ms.fst[cc][k] = 7 THEN 7 ELSE m0.s.storage[cc][k]]]],
                       !.fst = r.ms.fst, !.nflush = r.ms.nflush]
@@ -459,6 +461,7 @@ MOp(ms, self, o, g, operOf, root) ==
                       ELSE LET r == MBody(m1, tgt, body, g, operOf, 1, root) IN
                            IF r.ok THEN (IF o.op = "create" THEN [r EXCEPT !.ms.s.nonce[tgt] = "1", !.ms.dirty = @ \cup {tgt}] ELSE r)
                            ELSE [ms |-> RolledBack(m0, r), ok |-> FALSE]
+      [] o.op = "log" -> [ms |-> [ms EXCEPT !.s.logs = Append(@, o.id)], ok |-> TRUE]
       [] o.op = "sstore" -> [ms |-> [Load(ms, self) EXCEPT !.s.storage[self] = [@ EXCEPT !["s" \o ToString(o.id)] = 7], !.dirty = @ \cup {self}], ok |-> TRUE]
       [] o.op = "selfdestruct" ->
            \* statedb.Suicide: the balance is added to the beneficiary, the object is marked and zeroed
